@@ -16,3 +16,7 @@ CHECKS['C04'] = ('model_checking',
     'A: exhaustive re-parse of three enumerated corpora under 9 alternative configurations (memo off, capacity 1 entry per line, no pruning at cuts, trace, colour, parseinfo, combinations); B: deviation-bounded stateless exploration of memo-eviction faults injected at BoundedDict.get (<=1 quick / <=2 thorough evictions per parse); C: explicit-state BFS of BoundedDict against a list model',
     'trusted: the eviction seam (a subclass of BoundedDict installed in tatsu.contexts.core from the harness); outcome = (status, AST modulo parseinfo, error class)',
     'deviation-bounded fault exploration + exhaustive configuration lattice + explicit-state BFS against a model')
+CHECKS['C16'] = ('model_checking',
+    'explicit enumeration of complete rule-graph families (all 2-rule graphs over {calls, t, [t], {t}, [call]} with 1-2 item sequences; 3-rule families; 3-item sequences with call bases) built from the real model classes, each checked against an independent nullable/left-call/cycle analysis (GrammarError iff left cycle, flags of non-cyclic rules) and parsed from every rule on a fixed input battery under a recursion ceiling and watchdog',
+    'trusted: the independent analysis in mc/checks/c16.py; graphs with a call to a nullable rule in a left prefix are outside the property and skipped (counted)',
+    'exhaustive enumeration of a finite program family against an independent reference analysis')
